@@ -65,6 +65,7 @@ class Interp:
         self.write_hook = None         # fn(interp, target, attr_or_index, kind)
         self.loop_hook = None          # fn(interp, frame, node, iterable) -> None | handled
         self.unroll_limit = 200000
+        self.while_limit = None
         self.steps = 0
         self.step_limit = None
         self.exc = {}
@@ -257,7 +258,7 @@ class Interp:
         n = 0
         while self.truth(self.eval(s.test, fr)):
             n += 1
-            if n > self.unroll_limit:
+            if n > (self.while_limit or self.unroll_limit):
                 raise EngineError("while loop exceeded unroll limit in %s" % (fr.func.key if fr.func else "?"))
             r = self.exec_block(s.body, fr)
             if r is not None:
